@@ -122,11 +122,27 @@ def run_c17(R, tier, rng):
             C.cmp(f"sum(axis=0) {tag}", "col-sum", nt, lambda: num(mk().sum(axis=0).to_array(), colsum()), lambda: kl(colsum()), py=pyb + "; rl.sum(axis=0).to_array()")
             C.cmp(f"mean(axis=0) {tag}", "col-mean", nt, lambda: kl(np.asarray(mk().mean(axis=0).to_array(), dtype=float)), lambda: kl(np.array([float(s) / c for s, c in zip(colsum().astype(float) if dt != "uint64" else colsum(), counts)])),
                   py=pyb + "; rl.mean(axis=0).to_array()")
+        if dt != "bool":      # the numpy function spellings of the column aggregates: axis as keyword, positionally, and as -2
+            for spname, sp in (("np.sum(rl, axis=0)", lambda r: np.sum(r, axis=0)), ("np.sum(rl, 0)", lambda r: np.sum(r, 0)), ("rl.sum(axis=-2)", lambda r: r.sum(axis=-2))):
+                C.cmp(f"{spname} {tag}", "col-sum/spelling", nt, lambda: num(sp(mk()).to_array(), colsum()), lambda: kl(colsum()), py=pyb + f"; {spname}.to_array()")
+            C.cmp(f"np.mean(rl, axis=0) {tag}", "col-mean/spelling", nt, lambda: kl(np.asarray(np.mean(mk(), axis=0).to_array(), dtype=float)),
+                  lambda: kl(np.array([float(s_) / c_ for s_, c_ in zip(colsum().astype(float) if dt != "uint64" else colsum(), counts)])), py=pyb + "; np.mean(rl, axis=0).to_array()")
         C.cmp(f"col_counts {tag}", "col-counts", nt, lambda: kl(mk().col_counts().to_array()), lambda: counts, py=pyb + "; rl.col_counts().to_array()")
         C.cmp(f"ravel {tag}", "ravel", nt, lambda: kl(mk().ravel().to_array()), lambda: kl(np.concatenate(A)), py=pyb + "; rl.ravel().to_array()")
         rows2 = [[rng.choice(al) for _ in range(rng.randint(1, 3))] for _ in range(rng.randint(1, 2))]
         C.cmp(f"concatenate {tag} {rows2!r}", "concatenate", nt, lambda: dense_rows(np.concatenate([mk(), RunLengthRaggedArray.from_ragged_array(RaggedArray(rows2, dtype=dt))])),
               lambda: [kl(a) for a in A] + [kl(np.array(r, dtype=dt)) for r in rows2], py=pyb + f"; np.concatenate([rl, from_ragged({rows2!r})]).to_array()")
+        # operands of different dtypes (the narrower one first): numpy's common dtype, no value cast down
+        for dt2, extra_vals in (("float64", [0.5, 2.75]), ("int64", [300, -70000]), ("uint8", [200, 7])):
+            if dt2 == dt or dt in ("float64",) or (dt, dt2) in (("int64", "uint8"), ("uint64", "uint8"), ("uint64", "int64"), ("float32", "uint8"), ("float32", "int64")): continue
+            rows3 = [[rng.choice(extra_vals) for _ in range(rng.randint(1, 3))] for _ in range(rng.randint(1, 2))]
+            rt = np.result_type(np.dtype(dt), np.dtype(dt2))
+            def catmix():
+                r = np.concatenate([mk(), RunLengthRaggedArray.from_ragged_array(RaggedArray(rows3, dtype=dt2))])
+                return [dense_rows(r), str(r._values.dtype)]
+            C.cmp(f"concatenate mixed {dt}+{dt2} {tag} {rows3!r}", "concatenate/mixed-dtypes", True, catmix,
+                  lambda: [[kl(np.array(r_, dtype=dt).astype(rt)) for r_ in rows] + [kl(np.array(r_, dtype=dt2).astype(rt)) for r_ in rows3], str(rt)],
+                  py=pyb + f"; np.concatenate([rl, from_ragged({rows3!r}, dtype='{dt2}')])")
         # ufuncs: unary, scalar and column operands on either side (operand order matters)
         for ufn in rng.sample(UF, 3):
             uf = getattr(np, ufn)
